@@ -751,10 +751,16 @@ class Inliner:
     def _hoist(self, fctx, st, stack, caller_names) -> Optional[list[ast.stmt]]:
         # deliberately narrow: `x op= helper(..)` and `if helper(..) <cmp> ..:` only - hoisting out of
         # arbitrary expressions would rewrite literals (dict displays, call arguments) that rules read
-        if not isinstance(st, (ast.AugAssign, ast.If)):
+        yield_tuple = None
+        if isinstance(st, ast.Expr) and isinstance(st.value, ast.Yield) and isinstance(st.value.value, ast.Tuple):
+            # `yield a, helper(b)`: the helper call is a direct element and everything before it is a plain name / constant
+            yield_tuple = st.value.value
+        if not isinstance(st, (ast.AugAssign, ast.If)) and yield_tuple is None:
             return None
         roots = []
-        if isinstance(st, ast.If):
+        if yield_tuple is not None:
+            roots = []
+        elif isinstance(st, ast.If):
             if isinstance(st.test, ast.Compare) and isinstance(st.test.left, ast.Call):
                 roots = [("test", st.test)]
             else:
@@ -786,10 +792,21 @@ class Inliner:
 
         for fld, r in roots:
             search(st, fld, None, r)
+        if yield_tuple is not None:
+            for i_, e_ in enumerate(yield_tuple.elts):
+                if isinstance(e_, ast.Call):
+                    src_ = getattr(e_, "_src", None)
+                    if src_ is not None and getattr(src_, "_parent", None) is not None:
+                        g_ = self._callee(fctx, src_, stack)
+                        if g_ is not None and not self._is_expr_function(g_, plain=True) and all(isinstance(x, (ast.Name, ast.Constant)) for x in yield_tuple.elts[:i_]):
+                            found = (yield_tuple, "elts", i_, e_, src_, g_)
+                    break
+                if not isinstance(e_, (ast.Name, ast.Constant)):
+                    break
         if found is None:
             return None
         par, fld, idx, node, src, g = found
-        if not (par is st or (isinstance(st, ast.If) and par is st.test and fld == "left")):
+        if not (par is st or par is yield_tuple or (isinstance(st, ast.If) and par is st.test and fld == "left")):
             return None
         self.counter += 1
         tmp = f"_r{self.counter}"
